@@ -890,6 +890,120 @@ def _dealias_bound_methods(tree: ast.Module) -> list[str]:
     return notes
 
 
+def _module_file(rel: str, module: str | None, level: int, sources) -> str | None:
+    """The source file an ``import`` in ``rel`` names, if it is one of ours."""
+    if level:
+        parts = rel.split("/")[:-1]
+        if level > 1:
+            parts = parts[: -(level - 1)] if level - 1 <= len(parts) else []
+        base = "/".join(parts)
+        path = base + ("/" + module.replace(".", "/") if module else "")
+    else:
+        path = (module or "").replace(".", "/")
+    for cand in (path + ".py", path + "/__init__.py"):
+        if cand in sources:
+            return cand
+    return None
+
+
+def _materialise_method_aliases(tree: ast.Module, rel: str, sources, parsed) -> list[str]:
+    """``class C: check = staticmethod(check_schedule)`` (the function defined
+    at module level here or imported from a module of the package)  ->
+
+        @staticmethod
+        def check(schedule): return check_schedule(schedule)
+
+    so that the model has a method to look up and the normaliser a body to
+    inline.  Same for ``classmethod(f)`` and for a bare ``name = f`` (then the
+    first parameter is the instance).  Skipped unless the target is a plain
+    ``def`` whose defaults are constants."""
+    notes = []
+    top_defs = {n.name: n for n in tree.body if isinstance(n, ast.FunctionDef)}
+    imported: dict[str, tuple[str, str]] = {}
+    bound = set(top_defs)
+    for n in tree.body:
+        if isinstance(n, ast.ImportFrom):
+            for a in n.names:
+                bound.add(a.asname or a.name)
+                f = _module_file(rel, n.module, n.level, sources)
+                if f:
+                    imported[a.asname or a.name] = (f, a.name)
+        elif isinstance(n, ast.Import):
+            for a in n.names:
+                bound.add((a.asname or a.name).split(".")[0])
+        elif isinstance(n, ast.ClassDef):
+            bound.add(n.name)
+        elif isinstance(n, (ast.Assign, ast.AnnAssign)):
+            for t in (n.targets if isinstance(n, ast.Assign) else [n.target]):
+                if isinstance(t, ast.Name):
+                    bound.add(t.id)
+
+    def target_def(name):
+        if name in top_defs:
+            return top_defs[name]
+        if name in imported:
+            f, orig = imported[name]
+            if f not in parsed:
+                try:
+                    parsed[f] = ast.parse(sources[f])
+                except SyntaxError:
+                    return None
+            for n in parsed[f].body:
+                if isinstance(n, ast.FunctionDef) and n.name == orig:
+                    return n
+        return None
+
+    import builtins
+    def known(ann):
+        return all(x.id in bound or hasattr(builtins, x.id) for x in ast.walk(ann) if isinstance(x, ast.Name))
+
+    for cls in [n for n in ast.walk(tree) if isinstance(n, ast.ClassDef)]:
+        defined = {n.name for n in cls.body if isinstance(n, (ast.FunctionDef, ast.AsyncFunctionDef))}
+        for i, st in enumerate(list(cls.body)):
+            if not (isinstance(st, ast.Assign) and len(st.targets) == 1 and isinstance(st.targets[0], ast.Name)):
+                continue
+            name, v = st.targets[0].id, st.value
+            kind = None
+            if isinstance(v, ast.Call) and isinstance(v.func, ast.Name) and v.func.id in ("staticmethod", "classmethod") and len(v.args) == 1 and not v.keywords and isinstance(v.args[0], ast.Name):
+                kind, fname = v.func.id, v.args[0].id
+            elif isinstance(v, ast.Name):
+                kind, fname = "method", v.id
+            if kind is None or name in defined:
+                continue
+            # inside the class body the right-hand name may be a class-level binding
+            if any(isinstance(s2, (ast.FunctionDef, ast.Assign)) and s2 is not st and (
+                    getattr(s2, "name", None) == fname or any(isinstance(t, ast.Name) and t.id == fname for t in getattr(s2, "targets", [])))
+                   for s2 in cls.body[: cls.body.index(st)]):
+                continue
+            d = target_def(fname)
+            if d is None or d.decorator_list or d.args.vararg or d.args.kwarg:
+                continue
+            a = copy.deepcopy(d.args)
+            if any(not isinstance(x, ast.Constant) for x in a.defaults + [k for k in a.kw_defaults if k is not None]):
+                continue
+            for x in a.posonlyargs + a.args + a.kwonlyargs:
+                if x.annotation is not None and not known(x.annotation):
+                    x.annotation = None
+            if kind == "method" and not (a.posonlyargs + a.args):
+                continue
+            call = ast.Call(
+                func=ast.Name(id=fname, ctx=ast.Load()),
+                args=[ast.Name(id=x.arg, ctx=ast.Load()) for x in a.posonlyargs + a.args],
+                keywords=[ast.keyword(arg=x.arg, value=ast.Name(id=x.arg, ctx=ast.Load())) for x in a.kwonlyargs],
+            )
+            fn = ast.FunctionDef(
+                name=name, args=a, body=[ast.Return(value=call)],
+                decorator_list=[ast.Name(id=kind, ctx=ast.Load())] if kind != "method" else [],
+                returns=copy.deepcopy(d.returns) if d.returns is not None and known(d.returns) else None,
+                type_comment=None, type_params=[],
+            )
+            for x in ast.walk(fn):
+                ast.copy_location(x, st)
+            cls.body[cls.body.index(st)] = fn
+            notes.append(f"{cls.name}.{name} = {ast.unparse(v)}: written out as a forwarding {kind}")
+    return notes
+
+
 def unbundle(sources: dict[str, str]):
     """``{rel: src}`` -> (``{rel: new src}`` for rewritten modules, notes,
     line maps).  Modules that need nothing or cannot be rewritten safely are
@@ -897,12 +1011,18 @@ def unbundle(sources: dict[str, str]):
     out, notes, maps = {}, [], {}
     trees = {}
     dealiased = {}
+    parsed: dict[str, ast.Module] = {}
+    from . import imports_canon
+
+    package_modules = {imports_canon._rel_to_mod(r) for r in sources}
     for rel, src in sources.items():
         try:
             tree = ast.parse(src)
         except SyntaxError:
             continue
-        ns = _dealias_bound_methods(tree)
+        ns = imports_canon.canonicalise(tree, rel, package_modules)
+        ns += _dealias_bound_methods(tree)
+        ns += _materialise_method_aliases(tree, rel, sources, parsed)
         if ns:
             dealiased[rel] = ns
             trees[rel] = tree
